@@ -127,7 +127,7 @@ def mixture_gain_invariance(model, obs, emb, init, iterations, opts, gain, emb_g
         return Skip(f'both fits raise {type(a).__name__}')
     if isinstance(a, Exception) or isinstance(b, Exception):
         e = a if isinstance(a, Exception) else b
-        if pu.numerical_rejection(e):
+        if pu.numerical_rejection(e) and (name == 'cbmm' or not isinstance(e, AssertionError)):
             # e.g. ComplexBinghamTrainer asserts `scatter_eigenvalues >= 0`; for a (numerically) singular class scatter
             # the smallest eigenvalue is 0 +- 1e-17 and the sign is decided by rounding
             return Skip('tie-within-rounding: rejection of a numerically singular class decided by rounding')
@@ -201,6 +201,12 @@ def history_gain_invariance(model, variant, obs, emb, init, iterations, opts, ga
             b = _fit_with(pu.trainer(name), name, obs2, emb2, b0, int(iterations), opts)
             # and the cross form: the model fitted on y continued on c*y
             b_cross = _fit_with(pu.trainer(name), name, obs2, emb2, a0, int(iterations), opts)
+        elif variant == 'num-classes':
+            # the trainer draws its own start value (num_classes=K): same global RNG seed for both runs
+            seed = 1000 + int(iterations)
+            a = pu.fit(name, obs, emb, None, iterations, opts, num_classes=K, seed=seed)
+            b = pu.fit(name, obs2, emb2, None, iterations, opts, num_classes=K, seed=seed)
+            b_cross = None
         elif variant == 'reused-trainer':
             tr = _trainer_variant(name, 'fresh', D)
             a = _fit_with(tr, name, obs, emb, init, iterations, opts)
@@ -368,8 +374,9 @@ def search_history(ctx):
     quick = ctx.tier == 'quick'
     plan = [('cwmm', 'preset-dimension'), ('cwmm', 'reused-trainer'), ('cacgmm', 'continued'), ('cacgmm', 'reused-trainer'),
             ('vmfmm', 'reused-trainer'), ('gcacgmm', 'reused-trainer'), ('vmfcacgmm', 'reused-trainer'),
-            ('cacgmm', 'continued'), ('cbmm', 'preset-dimension')]
-    for i in range(ctx.n(54, 900)):
+            ('cacgmm', 'continued'), ('cbmm', 'preset-dimension'), ('cacgmm', 'num-classes'), ('cwmm', 'num-classes'),
+            ('gcacgmm', 'num-classes'), ('vmfmm', 'num-classes')]
+    for i in range(ctx.n(78, 1300)):
         if ctx.out_of_time(reserve=5):
             ctx.note('history stream cut short by the time budget')
             break
